@@ -186,14 +186,14 @@ def negLookRes (i : Nat) (C : List (Nat × Nat × Nat)) : List St → List St
 
 section nodes
 variable {X : Setup} {a i sz : Nat} {T S : List Int} {C : List (Nat × Nat × Nat)} {s : VMState} {body : Code}
-  {rs : List St}
+  {rs : List St} {v : Int}
 
 /-- `Atomic`: `Setjump; ⟨body⟩; Forejump` keeps the first success of the body and cuts its frames -/
-theorem atomic_delivers (hT : T ≠ []) (hcode : CodeAt X.p a ([i0 opSetjump] ++ body ++ [i0 opForejump]))
-    (hsz : codeLen body = sz) (he : Entry X a i T S C s) (hext : ∀ r ∈ rs, ∃ ext, r.caps = C ++ ext)
-    (hbody : ∀ s1, Entry X (a + 1) i ((a : Int) :: T) ((C.length : Int) :: (T.length : Int) :: S) C s1 →
-      Delivers X (a + 1 + sz) ((a : Int) :: T) ((C.length : Int) :: (T.length : Int) :: S)
-        ((C.length : Int) :: (T.length : Int) :: S) C rs s1) :
+theorem atomic_delivers (hcode : CodeAt X.p a ([i0 opSetjump] ++ body ++ [i0 opForejump]))
+    (hsz : codeLen body = sz) (he : Entry X a i (T ++ [v]) S C s) (hext : ∀ r ∈ rs, ∃ ext, r.caps = C ++ ext)
+    (hbody : ∀ s1, Entry X (a + 1) i ((a : Int) :: (T ++ [v])) ((C.length : Int) :: ((T.length + 1 : Nat) : Int) :: S) C s1 →
+      Delivers X (a + 1 + sz) ((a : Int) :: T) ((C.length : Int) :: ((T.length + 1 : Nat) : Int) :: S)
+        ((C.length : Int) :: ((T.length + 1 : Nat) : Int) :: S) C rs s1) :
     Delivers X (a + 1 + sz + 1) T S S C (rs.take 1) s := by
   have h1 : CodeAt X.p a ([i0 opSetjump] ++ body) := hcode.left'
   have hsj : InstrAt X.p a (i0 opSetjump) := (h1.left').instr
@@ -208,34 +208,34 @@ theorem atomic_delivers (hT : T ≠ []) (hcode : CodeAt X.p a ([i0 opSetjump] ++
   have hf1 : ∃ w, VM.fetch X.p (a + 1) = .ok w := by simpa using (h1.left').fetch_end
   obtain ⟨s1, hr1, he1⟩ := setjump_leads he hsj hf1
   refine Delivers.of_reach hr1 ?_
-  have hb := hbody s1 he1
+  have hb := hbody s1 (by simpa using he1)
   cases rs with
   | nil =>
-    obtain ⟨s2, hr2, hf2⟩ := hb
-    exact Leads.of_reach hr2 (setjump_back hf2 hsj)
+    obtain ⟨s2, hr2, v', hf2⟩ := hb
+    exact Delivers.fail (v := v') (Leads.of_reach hr2 (setjump_back (by simpa using hf2) hsj))
   | cons r rs' =>
-    obtain ⟨F, hF, ⟨s2, hr2, he2⟩, _⟩ := hb
+    obtain ⟨F, hF, ⟨s2, hr2, v', he2⟩, _⟩ := hb
     obtain ⟨ext, hx⟩ := hext r (by simp)
     simp only [List.take_succ_cons, List.take_zero]
-    refine ⟨[((a + 1 + sz : Nat) : Int), (C.length : Int)], forejump_frame hfj _, ?_, ?_⟩
+    refine Delivers.cons (v := v') [((a + 1 + sz : Nat) : Int), (C.length : Int)] (forejump_frame hfj _) ?_ ?_
     · refine Leads.of_reach hr2 ?_
-      have he2' : Entry X (a + 1 + sz) r.pos ((F ++ [(a : Int)]) ++ T) ((C.length : Int) :: (T.length : Int) :: S)
+      have he2' : Entry X (a + 1 + sz) r.pos ((F ++ [(a : Int)]) ++ (T ++ [v'])) ((C.length : Int) :: ((T ++ [v']).length : Int) :: S)
           r.caps s2 := by simpa using he2
-      have := forejump_leads (hF.append (setjump_frame hsj)) hT he2' hfj hend
+      have := forejump_leads (hF.append (setjump_frame hsj)) (by simp) he2' hfj hend
       simpa using this
-    · intro s'' hf''
+    · intro s'' v'' hf''
       rw [hx] at hf''
-      exact forejump_back (by simpa using hf'') hfj
+      exact Delivers.fail (v := v'') (forejump_back (by simpa using hf'') hfj)
 
 /-- positive lookahead: `Setjump; Setmark; ⟨body⟩; Getmark; Forejump` -/
 theorem poslook_delivers {TPx : TP} {sets : List (List Nat)} (hrel : EnvRel TPx sets X.env X.se) (hi : i ≤ X.se.n)
-    (hT : T ≠ []) (hcode : CodeAt X.p a ([i0 opSetjump, i0 opSetmark] ++ body ++ [i0 opGetmark, i0 opForejump]))
-    (hsz : codeLen body = sz) (he : Entry X a i T S C s) (hext : ∀ r ∈ rs, ∃ ext, r.caps = C ++ ext)
-    (hbody : ∀ s1, Entry X (a + 2) i (((a + 1 : Nat) : Int) :: (a : Int) :: T)
-        ((i : Int) :: (C.length : Int) :: (T.length : Int) :: S) C s1 →
+    (hcode : CodeAt X.p a ([i0 opSetjump, i0 opSetmark] ++ body ++ [i0 opGetmark, i0 opForejump]))
+    (hsz : codeLen body = sz) (he : Entry X a i (T ++ [v]) S C s) (hext : ∀ r ∈ rs, ∃ ext, r.caps = C ++ ext)
+    (hbody : ∀ s1, Entry X (a + 2) i (((a + 1 : Nat) : Int) :: (a : Int) :: (T ++ [v]))
+        ((i : Int) :: (C.length : Int) :: ((T.length + 1 : Nat) : Int) :: S) C s1 →
       Delivers X (a + 2 + sz) (((a + 1 : Nat) : Int) :: (a : Int) :: T)
-        ((i : Int) :: (C.length : Int) :: (T.length : Int) :: S)
-        ((i : Int) :: (C.length : Int) :: (T.length : Int) :: S) C rs s1) :
+        ((i : Int) :: (C.length : Int) :: ((T.length + 1 : Nat) : Int) :: S)
+        ((i : Int) :: (C.length : Int) :: ((T.length + 1 : Nat) : Int) :: S) C rs s1) :
     Delivers X (a + 2 + sz + 2) T S S C (posLookRes i rs) s := by
   have h1 : CodeAt X.p a ([i0 opSetjump, i0 opSetmark] ++ body) := hcode.left'
   have h12 : CodeAt X.p a ([i0 opSetjump] ++ [i0 opSetmark]) := h1.left'
@@ -260,41 +260,41 @@ theorem poslook_delivers {TPx : TP} {sets : List (List Nat)} (hrel : EnvRel TPx 
   obtain ⟨s1, hr1, he1⟩ := setjump_leads he hsj hf1
   obtain ⟨s1', hr1', he1'⟩ := setmark_leads he1 hsm hf2
   refine Delivers.of_reach (hr1.trans hr1') ?_
-  have hb := hbody s1' he1'
+  have hb := hbody s1' (by simpa using he1')
   cases rs with
   | nil =>
-    obtain ⟨s2, hr2, hfl⟩ := hb
-    refine Leads.of_reach hr2 ?_
-    obtain ⟨s3, hr3, hfl3⟩ := setmark_back hfl hsm
+    obtain ⟨s2, hr2, v', hfl⟩ := hb
+    refine Delivers.fail (v := v') (Leads.of_reach hr2 ?_)
+    obtain ⟨s3, hr3, hfl3⟩ := setmark_back (by simpa using hfl) hsm
     exact Leads.of_reach hr3 (setjump_back hfl3 hsj)
   | cons r rs' =>
-    obtain ⟨F, hF, ⟨s2, hr2, he2⟩, _⟩ := hb
+    obtain ⟨F, hF, ⟨s2, hr2, v', he2⟩, _⟩ := hb
     obtain ⟨ext, hx⟩ := hext r (by simp)
-    refine ⟨[((a + 2 + sz + 1 : Nat) : Int), (C.length : Int)], forejump_frame hfj _, ?_, ?_⟩
+    refine Delivers.cons (v := v') [((a + 2 + sz + 1 : Nat) : Int), (C.length : Int)] (forejump_frame hfj _) ?_ ?_
     · refine Leads.of_reach hr2 ?_
       obtain ⟨s3, hr3, he3⟩ := getmark_leads hrel hi he2 hgm hf3
       refine Leads.of_reach hr3 ?_
       have hFr : Framed X.p ([((a + 2 + sz : Nat) : Int), (i : Int)] ++ (F ++ ([((a + 1 : Nat) : Int)] ++ [(a : Int)]))) :=
         (getmark_frame hgm _).append (hF.append ((setmark_frame hsm).append (setjump_frame hsj)))
       have he3' : Entry X (a + 2 + sz + 1) i
-          (([((a + 2 + sz : Nat) : Int), (i : Int)] ++ (F ++ ([((a + 1 : Nat) : Int)] ++ [(a : Int)]))) ++ T)
-          ((C.length : Int) :: (T.length : Int) :: S) r.caps s3 := by simpa using he3
-      have := forejump_leads hFr hT he3' hfj hend
+          (([((a + 2 + sz : Nat) : Int), (i : Int)] ++ (F ++ ([((a + 1 : Nat) : Int)] ++ [(a : Int)]))) ++ (T ++ [v']))
+          ((C.length : Int) :: ((T ++ [v']).length : Int) :: S) r.caps s3 := by simpa using he3
+      have := forejump_leads hFr (by simp) he3' hfj hend
       simpa using this
-    · intro s'' hf''
+    · intro s'' v'' hf''
       simp only at hf''
       rw [hx] at hf''
-      exact forejump_back (by simpa using hf'') hfj
+      exact Delivers.fail (v := v'') (forejump_back (by simpa using hf'') hfj)
 
 /-- negative lookahead: `Setjump; Lazybranch L; ⟨body⟩; Backjump; L: Forejump` -/
-theorem neglook_delivers (hT : T ≠ [])
+theorem neglook_delivers
     (hcode : CodeAt X.p a ([i0 opSetjump, i1 opLazybranch ((a + 3 + sz + 1 : Nat) : Int)] ++ body ++
       [i0 opBackjump, i0 opForejump]))
-    (hsz : codeLen body = sz) (he : Entry X a i T S C s) (hext : ∀ r ∈ rs, ∃ ext, r.caps = C ++ ext)
-    (hbody : ∀ s1, Entry X (a + 3) i (((a + 1 : Nat) : Int) :: (i : Int) :: (a : Int) :: T)
-        ((C.length : Int) :: (T.length : Int) :: S) C s1 →
+    (hsz : codeLen body = sz) (he : Entry X a i (T ++ [v]) S C s) (hext : ∀ r ∈ rs, ∃ ext, r.caps = C ++ ext)
+    (hbody : ∀ s1, Entry X (a + 3) i (((a + 1 : Nat) : Int) :: (i : Int) :: (a : Int) :: (T ++ [v]))
+        ((C.length : Int) :: ((T.length + 1 : Nat) : Int) :: S) C s1 →
       Delivers X (a + 3 + sz) (((a + 1 : Nat) : Int) :: (i : Int) :: (a : Int) :: T)
-        ((C.length : Int) :: (T.length : Int) :: S) ((C.length : Int) :: (T.length : Int) :: S) C rs s1) :
+        ((C.length : Int) :: ((T.length + 1 : Nat) : Int) :: S) ((C.length : Int) :: ((T.length + 1 : Nat) : Int) :: S) C rs s1) :
     Delivers X (a + 3 + sz + 2) T S S C (negLookRes i C rs) s := by
   have h1 : CodeAt X.p a ([i0 opSetjump, i1 opLazybranch ((a + 3 + sz + 1 : Nat) : Int)] ++ body) := hcode.left'
   have h12 : CodeAt X.p a ([i0 opSetjump] ++ [i1 opLazybranch ((a + 3 + sz + 1 : Nat) : Int)]) := h1.left'
@@ -323,27 +323,27 @@ theorem neglook_delivers (hT : T ≠ [])
   have hb := hbody s1' (by simpa [Nat.add_assoc] using he1')
   cases rs with
   | nil =>
-    obtain ⟨s2, hr2, hfl⟩ := hb
-    refine ⟨[((a + 3 + sz + 1 : Nat) : Int), (C.length : Int)], forejump_frame hfj _, ?_, ?_⟩
+    obtain ⟨s2, hr2, v', hfl⟩ := hb
+    refine Delivers.cons (v := v') [((a + 3 + sz + 1 : Nat) : Int), (C.length : Int)] (forejump_frame hfj _) ?_ ?_
     · refine Leads.of_reach hr2 ?_
-      obtain ⟨s3, hr3, he3⟩ := lazybranch_back hfl hlb ⟨_, hfj.fetch⟩
+      obtain ⟨s3, hr3, he3⟩ := lazybranch_back (T := (a : Int) :: (T ++ [v'])) (by simpa using hfl) hlb ⟨_, hfj.fetch⟩
       refine Leads.of_reach hr3 ?_
-      have he3' : Entry X (a + 3 + sz + 1) i ([(a : Int)] ++ T) ((C.length : Int) :: (T.length : Int) :: S) C s3 := by
+      have he3' : Entry X (a + 3 + sz + 1) i ([(a : Int)] ++ (T ++ [v'])) ((C.length : Int) :: ((T ++ [v']).length : Int) :: S) C s3 := by
         simpa using he3
-      have := forejump_leads (setjump_frame hsj) hT he3' hfj hend
+      have := forejump_leads (setjump_frame hsj) (by simp) he3' hfj hend
       simpa using this
-    · intro s'' hf''
-      exact forejump_back (ext := []) (by simpa using hf'') hfj
+    · intro s'' v'' hf''
+      exact Delivers.fail (v := v'') (forejump_back (ext := []) (by simpa using hf'') hfj)
   | cons r rs' =>
-    obtain ⟨F, hF, ⟨s2, hr2, he2⟩, _⟩ := hb
+    obtain ⟨F, hF, ⟨s2, hr2, v', he2⟩, _⟩ := hb
     obtain ⟨ext, hx⟩ := hext r (by simp)
-    refine Leads.of_reach hr2 (Leads.here ?_)
+    refine Delivers.fail (v := v') (Leads.of_reach hr2 (Leads.here ?_))
     have hFr : Framed X.p (F ++ ([((a + 1 : Nat) : Int), (i : Int)] ++ [(a : Int)])) :=
       hF.append ((lazybranch_frame hlb _).append (setjump_frame hsj))
-    have he2' : Entry X (a + 3 + sz) r.pos ((F ++ ([((a + 1 : Nat) : Int), (i : Int)] ++ [(a : Int)])) ++ T)
-        ((C.length : Int) :: (T.length : Int) :: S) (C ++ ext) s2 := by
+    have he2' : Entry X (a + 3 + sz) r.pos ((F ++ ([((a + 1 : Nat) : Int), (i : Int)] ++ [(a : Int)])) ++ (T ++ [v']))
+        ((C.length : Int) :: ((T ++ [v']).length : Int) :: S) (C ++ ext) s2 := by
       rw [← hx]; simpa using he2
-    exact backjump_fails hFr hT he2' hbj
+    exact backjump_fails hFr (by simp) he2' hbj
 
 end nodes
 
